@@ -26,7 +26,7 @@ def splat_has(ev, st, m):
 def _same_args(c, v):
     """v is the user's extra_args map (or the fresh empty dict standing in for None)."""
     ua = c.a_extra_args
-    if isinstance(ua, Opt) and v is ua.val:
+    if v is ua or (isinstance(ua, Opt) and v is ua.val):
         return True
     return isinstance(v, Ref) and c.new.obj(v).kind == 'dict' and not c.new.obj(v).items
 
